@@ -128,17 +128,27 @@ def conversation(run, pv, rng, length, threshold, abrupt, label,
     warmup = rng.random() < 0.33 and not abrupt
     warm_threshold = None if threshold is not None else 32
     warm_encrypted = not encrypted
+    # ... and, half of the time, another protocol version (the server was
+    # "upgraded" between the two sessions): ids/layouts remembered from the
+    # first session must not survive
+    warm_pv = pv if rng.random() < 0.5 else rng.choice(
+        [v for v in (47, 110, 338, 340, 404, 578, 757) if v != pv])
+    wcodec = codec_for(warm_pv)
 
     def warm_handler(io):
         hs = scripts.read_handshake(io)
         if hs is None:
             return
-        scripts.login_offline(io, pv, warm_threshold, codec,
+        scripts.login_offline(io, warm_pv, warm_threshold, wcodec,
                               encrypted=warm_encrypted)
-        for kind, (cid, cp), _exp in build_history(rng, pv, codec, 6,
-                                                   unknown_ids, unhandled):
-            io.send_frame(cid, cp)
-        did, dp = codec.encode('play_disconnect', {'reason': '"first"'})
+        for v in (5, 300):
+            kid, kp = wcodec.encode('cb_keep_alive', {'id': v})
+            io.send_frame(kid, kp)
+        cid, cp = wcodec.encode('cb_position_look', {
+            'x': 1.0, 'y': 2.0, 'z': 3.0, 'yaw': 0.0, 'pitch': 0.0,
+            'flags': 0, 'teleport_id': 9, 'dismount': False})
+        io.send_frame(cid, cp)
+        did, dp = wcodec.encode('play_disconnect', {'reason': '"first"'})
         io.send_frame(did, dp)
         io.half_close()
         io.drain(timeout=8.0)
@@ -184,6 +194,7 @@ def conversation(run, pv, rng, length, threshold, abrupt, label,
          'burst': burst, 'abrupt': abrupt, 'codec': type(codec).__name__,
          'encrypted': encrypted, 'short_reads': short_reads,
          'second_session_of_object': warmup,
+         'first_session_version': warm_pv if warmup else None,
          'compression_switched_on_in_play': play_compress,
          'kinds': [h[0] for h in hist][:20]}
     try:
@@ -192,7 +203,9 @@ def conversation(run, pv, rng, length, threshold, abrupt, label,
         conn.vf_rng = rng
         conn.vf_short_reads = short_reads     # partial TCP delivery
         if warmup:
+            conn.allowed_proto_versions = {warm_pv}
             conn.connect()
+            conn.allowed_proto_versions = {pv}
             if not pc.wait_idle(conn, 20.0):
                 return 'inconclusive', 'first session did not end'
             if rec.exceptions or rec.exits != 1:
